@@ -116,8 +116,24 @@ def run(ctx: Ctx):
             g_ok = len(gath) == 1 and vg.is_const(gath[0].args[2], -1) and "actions" in vg.params_of(gath[0].args[3]) and nf.strip(gath[0].args[0]).op == "param"
             stores = [n for n in vg.walk(body) if n.op == "store"]
             m_ok = len(stores) == 1 and vg.is_const(stores[0].args[2], 0) and nf.strip(stores[0].args[1], True).op in ("inv", "not") and "mask" in vg.params_of(stores[0].args[1])
-            ok = same and g_ok and m_ok
-            why = f"sum over the step axis of the same tensor: {same}; gather(-1, actions): {g_ok}; only `~mask` entries are zeroed: {m_ok}"
+            # the gather is taken exactly when the log-probs still carry the action axis (rank 3)
+            d_ok = False
+            for ph in [n for n in vg.walk(body) if n.op in ("phi", "ifexp")] if gath else []:
+                in_t = any(n is gath[0] for n in vg.walk(ph.args[1]))
+                in_f = any(n is gath[0] for n in vg.walk(ph.args[2]))
+                if in_t == in_f:
+                    continue
+                conj = [ph.args[0]]
+                while any(c.op == "and" for c in conj):
+                    conj = [x for c in conj for x in (c.args if c.op == "and" else [c])]
+                for c in conj:
+                    if c.op in ("==", "!=") and any(vg.is_const(x, 3) for x in c.args) and \
+                            any(isinstance(x, vg.S) and ((x.op == "meth" and x.args[1] in ("dim", "ndimension")) or (x.op == "attr" and x.args[1] == "ndim")) and nf.strip(x.args[0]).op == "param" for x in c.args):
+                        d_ok = d_ok or (in_t and c.op == "==") or (in_f and c.op == "!=" and len(conj) == 1)
+            sum_cond = [c for c, v in fr.returns if v is summed[0]]
+            s_ok = len(sum_cond) == 1 and isinstance(sum_cond[0], vg.S) and sum_cond[0].op == "param" and sum_cond[0].args[0] == "return_sum"
+            ok = same and g_ok and m_ok and d_ok and s_ok
+            why = f"sum over the step axis of the same tensor: {same}; gather(-1, actions): {g_ok}, taken iff the log-probs have rank 3: {d_ok}; only `~mask` entries are zeroed: {m_ok}; the sum is returned iff return_sum: {s_ok}"
     ctx.ob("C11.b", "get_log_likelihood", ok, gl.loc, why, construct="get_log_likelihood:structure")
     # ---- d: forced start
     it3 = pairing(ctx, ds, "pre_decoder_hook", ("actions", "logprobs"), "DecodingStrategy.pre_decoder_hook")
